@@ -126,9 +126,30 @@ func history(c *lib.Ctx, sc *lib.Script, fails *[]lib.OracleFail, rng *lib.RNG, 
 		}
 		return lib.Pick(rng, k.Ref.Docs), true
 	}
+	// a directed prefix: a non-partial unique index first, a plain index after it, documents lacking the unique key,
+	// $unset / nil updates of it (seeded change c11e: a rejected write that half-happens shows through the later index)
+	var script []sg.Op
+	if rng.Chance(1, 5) {
+		sops, u, p := g.SparseUnique()
+		script = append(script, u, p)
+		for _, o := range sops {
+			if o.Kind != "find" { // the observation after every call reads through every access path anyway
+				script = append(script, o)
+			}
+		}
+		if len(script) > 24 {
+			script = script[:24]
+		}
+		steps = max(steps, len(script))
+		c.Hit("history:sparse-unique-then-plain")
+	}
 	for s := 0; s < steps && len(*fails) == 0; s++ {
 		var o sg.Op
 		single := true
+		if len(script) > 0 {
+			o, script = script[0], script[1:]
+			goto run
+		}
 		switch rng.Weighted([]int{8, 3, 6, 3, 2, 5, 1, 1}) {
 		case 0: // insert (ids collide often; sometimes no id)
 			o = sg.Op{Kind: "ins", Docs: []sg.Map{g.Doc()}}
@@ -175,6 +196,7 @@ func history(c *lib.Ctx, sc *lib.Script, fails *[]lib.OracleFail, rng *lib.RNG, 
 			}
 			single = false
 		}
+	run:
 		if o.Kind == "ins" && rng.Chance(1, 6) { // a batch whose later document may be rejected
 			o.Docs = append(o.Docs, g.Doc())
 			single = false
